@@ -4,6 +4,7 @@ import c19
 import rsmchecks
 import logstore
 import c12
+import c15
 
 CHECKS = {}
 CHECKS["RAFT"] = raftfamily.check_all
@@ -14,6 +15,7 @@ CHECKS["C05"] = rsmchecks.check_c05
 CHECKS["C08"] = rsmchecks.check_c08
 
 CHECKS["C12"] = c12.check
+CHECKS["C15"] = c15.check
 CHECKS["C09"] = logstore.check_c09
 CHECKS["C10"] = logstore.check_c10
 
